@@ -334,7 +334,7 @@ def _joint_shards(tier):
     out = [({"n": n, "red": 0}, 600) for n in range(2)] + [({"n": 2, "red": 0, "i0": i}, 600) for i in range(0, 64, 1)]
     out += [({"n": 3, "red": 1, "i0": i}, 900) for i in range(16)]
     if tier == "thorough":
-        out += [({"n": 3, "red": 0, "i0": i, "i1": j}, 1800) for i in range(64) for j in range(0, 64)]
+        out += [({"n": 3, "red": 0, "i0": i}, 3600) for i in range(64)]
     return out
 
 
